@@ -209,7 +209,8 @@ func c06Run(cfg vsched.Config, cs c06Case) (*c06Obs, *vsched.Sched) {
 				return (hookPaused || apiPaused) && !resumed && !res.Closed()
 			},
 			Do: func() {
-				o.inflightAtUnpause = f.Net.Node(q.ID).Pending(r.ID) + f.Net.Node(r.ID).Pending(q.ID)
+				// (several resumes may happen: any of them with messages of the cancelled response in flight counts)
+				o.inflightAtUnpause = max(o.inflightAtUnpause, f.Net.Node(q.ID).Pending(r.ID)+f.Net.Node(r.ID).Pending(q.ID))
 				if cs.Mode == "req-both" {
 					if o.unpauses == 0 {
 						// did the hook's pause and the API's pause land on the same block?
